@@ -94,6 +94,8 @@ where
     let mut P: Vec<Vec<usize>> = vec![vec![]; graph.number_of_nodes()];
     let mut D = vec![f64::MAX; graph.number_of_nodes()];
     let mut fringe = VecDeque::<usize>::new();
+    #[cfg(graphrs_verif)]
+    let _span = crate::verif_hooks::span("betweenness_ss", source);
     let mut sigma = vec![0.0; graph.number_of_nodes()];
 
     sigma[source] = 1.0;
@@ -135,6 +137,8 @@ where
     A: Clone,
 {
     // println!("source: {:?}", source);
+    #[cfg(graphrs_verif)]
+    let _span = crate::verif_hooks::span("betweenness_ss", source);
     let mut P: Vec<Vec<usize>> = vec![vec![]; graph.number_of_nodes()];
     let mut D = vec![f64::MAX; graph.number_of_nodes()];
     let mut seen = vec![f64::MAX; graph.number_of_nodes()];
@@ -192,6 +196,8 @@ where
 }
 
 fn accumulate_betweenness(betweenness: &mut Vec<f64>, result: &SingleSourceResults) {
+    #[cfg(graphrs_verif)]
+    crate::verif_hooks::emit("betweenness_combine", 2, result.source);
     let mut delta = vec![0.0; betweenness.len()];
     let mut S = result.S.iter().rev();
     while let Some(w) = S.next() {
